@@ -1480,7 +1480,11 @@ def drop_logging(fn, world, modname):
             return False
         for a in list(c.args) + [k.value for k in c.keywords]:
             if any(isinstance(n, (ast.Call, ast.Await, ast.Yield,
-                                  ast.YieldFrom, ast.NamedExpr))
+                                  ast.YieldFrom, ast.NamedExpr)) and not (
+                       isinstance(n, ast.Call) and isinstance(
+                           n.func, ast.Name) and n.func.id == "len" and
+                       len(n.args) == 1 and isinstance(
+                           n.args[0], (ast.Name, ast.Attribute)))
                    for n in ast.walk(a)):
                 return False
             # an f-string is formatted before the call: a format spec
